@@ -18,7 +18,7 @@ for nm, sc, has_a, has_g in ROWS:
             'HandledEnum action_call(fsm_t* fsm, event_t evt, stref_t src, stref_t tgt)', 'functor_row.spec.h', defines=['UNIT_ACTION_CALL=1'], xform=xr, replay=['order', 'defer']))
     if has_g:
         UNITS.append(Unit('front.%s.guard_call' % nm, ['C14', 'C02'], 'front', Part(FR, sc, 'guard_call ( FSM & fsm , EVT & evt , SourceState & src , TargetState & tgt , AllStates & )'),
-            '_Bool guard_call(fsm_t* fsm, event_t evt, stref_t src, stref_t tgt)', 'functor_row.spec.h', defines=['UNIT_GUARD_CALL=1'], xform=xr, replay=['order']))
+            '_Bool guard_call(fsm_t* fsm, event_t evt, stref_t src, stref_t tgt)', 'functor_row.spec.h', defines=['UNIT_GUARD_CALL=1'], xform=xr, replay=['fronts', 'order']))
 for kind, sc in enumerate((['struct get_functor_return_value {'], ['struct get_functor_return_value < Func , typename enable_if < typename has_deferring_action < Func > :: type > :: type >'],
                            ['struct get_functor_return_value < Func , typename enable_if < typename has_some_deferring_actions < Func > :: type > :: type >'])):
     UNITS.append(Unit('front.get_functor_return_value.%d' % kind, ['C14', 'C05'], 'front', Part(FR, sc, '', member_init='value'),
@@ -33,7 +33,7 @@ UNITS.append(Unit('front.ActionSequence_.call4', ['C14', 'C02'], 'front',
             'for (type_t FCT = 0; FCT != g_nseq; ++FCT)\n__CPROVER_assigns(FCT, g_anext)\n__CPROVER_loop_invariant(0 <= FCT && FCT <= g_nseq && g_anext == FCT)\n__CPROVER_decreases(g_nseq - FCT)\n{ @0 }',
     must_contain=[(FR, 'Call2 ( EVT & evt , FSM & fsm , SourceState & src , TargetState & tgt ) : evt_ ( evt ) , fsm_ ( fsm ) , src_ ( src ) , tgt_ ( tgt ) { }'),
                   (FR, 'for_each < Sequence , wrap < _1 > > ( Call2 < EVT , FSM , SourceState , TargetState > ( evt , fsm , src , tgt ) ) ;')],
-    force_loop_contracts=True, replay=['order']))
+    force_loop_contracts=True, replay=['fronts', 'order']))
 UNITS.append(Unit('front.Defer.call', ['C05', 'C14'], 'front', Part(FR, ['struct Defer'], 'void operator ( ) ( EVT & evt , FSM & fsm , SourceState & , TargetState & ) const'),
     'void defer_call(event_t evt, fsm_t* fsm, stref_t src, stref_t tgt)', 'functor_row.spec.h', defines=['UNIT_DEFER=1'],
     xform=back_xform([], refparams=(), rewrites=[dict(name='member-call', pat='fsm . defer_event (', rep='fsm_defer_event ( fsm ,', min=0, max=1)]), replay=['defer']))
@@ -45,10 +45,10 @@ for nm, has_a, has_g in (('a_row', 1, 0), ('row', 1, 1), ('g_row', 0, 1), ('a_ir
     sc = ['struct ' + nm + ' {']
     if has_a:
         UNITS.append(Unit('front.basic.%s.action_call' % nm, ['C14', 'C02'], 'front', Part(SD, sc, 'action_call ( FSM & fsm , Event const & evt , SourceState & , TargetState & , AllStates & )'),
-            'HandledEnum basic_action_call(fsm_t* fsm, event_t evt)', 'functor_row.spec.h', defines=['UNIT_BASIC_ACTION=1'], xform=xb, replay=['order']))
+            'HandledEnum basic_action_call(fsm_t* fsm, event_t evt)', 'functor_row.spec.h', defines=['UNIT_BASIC_ACTION=1'], xform=xb, replay=['fronts', 'order']))
     if has_g:
         UNITS.append(Unit('front.basic.%s.guard_call' % nm, ['C14', 'C02'], 'front', Part(SD, sc, 'guard_call ( FSM & fsm , Event const & evt , SourceState & , TargetState & , AllStates & )'),
-            '_Bool basic_guard_call(fsm_t* fsm, event_t evt)', 'functor_row.spec.h', defines=['UNIT_BASIC_GUARD=1'], xform=xb, replay=['order']))
+            '_Bool basic_guard_call(fsm_t* fsm, event_t evt)', 'functor_row.spec.h', defines=['UNIT_BASIC_GUARD=1'], xform=xb, replay=['fronts', 'order']))
 
 UNITS.append(Unit('front.ActionSequence_.call3', ['C14', 'C02'], 'front',
     Part(FR, ['struct ActionSequence_', 'struct Call {'], 'void operator ( ) ( wrap < FCT > const & )',
@@ -58,4 +58,4 @@ UNITS.append(Unit('front.ActionSequence_.call3', ['C14', 'C02'], 'front',
             'for (type_t FCT = 0; FCT != g_nseq; ++FCT)\n__CPROVER_assigns(FCT, g_anext)\n__CPROVER_loop_invariant(0 <= FCT && FCT <= g_nseq && g_anext == FCT)\n__CPROVER_decreases(g_nseq - FCT)\n{ @0 }',
     must_contain=[(FR, 'Call ( EVT & evt , FSM & fsm , STATE & state ) : evt_ ( evt ) , fsm_ ( fsm ) , state_ ( state ) { }'),
                   (FR, 'for_each < Sequence , wrap < _1 > > ( Call < EVT , FSM , STATE > ( evt , fsm , state ) ) ;')],
-    force_loop_contracts=True, replay=['order']))
+    force_loop_contracts=True, replay=['fronts', 'order']))
